@@ -754,7 +754,7 @@ def run(ck):
     if problems:
         ck.notes.append("translator: " + "; ".join(problems)[:500] +
                         " -- Gen/Prims.v kept as hand-written model, tie = correspondence only")
-    res = vv.prove("Properties_C01", vv.FLOCQ_AXIOMS)
+    res = vv.prove("Properties_C01", set())     # every theorem is closed under the global context
     ck.add_proof(res)
     if ck.thorough and not res["failure"]:
         ok, axioms, tail = vv.coqchk("Properties_C01")
